@@ -142,13 +142,11 @@ func extractFirstBytesRecursive(re *syntax.Regexp, result *FirstByteSet, depth i
 		}
 		return true
 
-	case syntax.OpBeginLine, syntax.OpBeginText:
-		// Anchors don't consume bytes, skip to next
-		return true
-
-	case syntax.OpEndLine, syntax.OpEndText:
-		// End anchors: pattern could match at end, need to check next part
-		return true
+	case syntax.OpBeginLine, syntax.OpBeginText, syntax.OpEndLine, syntax.OpEndText:
+		// An assertion reached here (leading ^ of a concatenation is skipped by the caller)
+		// matches without consuming a byte: what follows it decides the first byte, and this
+		// walk does not look there. `(?:^|x)a` starts with 'a' or 'x', not just 'x'.
+		return false
 
 	case syntax.OpCapture:
 		// Capture group: recurse into content
@@ -160,7 +158,7 @@ func extractFirstBytesRecursive(re *syntax.Regexp, result *FirstByteSet, depth i
 	case syntax.OpConcat:
 		// Concatenation: find first non-anchor part
 		for _, sub := range re.Sub {
-			// Skip anchors
+			// Skip leading start anchors
 			if sub.Op == syntax.OpBeginLine || sub.Op == syntax.OpBeginText {
 				continue
 			}
